@@ -126,10 +126,16 @@ func (m *Model) PullPositions(ctx context.Context, ops ...resource.ReadOption) <
 		// emit sends the current positions unless they equal what was sent last; false means stop
 		emit := func(changeTime time.Time) bool {
 			// transform into the correct output format
+			// in the order GetPositions reports them: by id, i.e. by the direction a position is stored
+			// under (its own direction field may be absent when an update mask left it out)
+			ids := maps.Keys(all)
+			slices.Sort(ids)
 			positions := &traits.OpenClosePositions{
-				States: maps.Values(all),
+				States: make([]*traits.OpenClosePosition, len(ids)),
 			}
-			sortPositions(positions.States)
+			for i, id := range ids {
+				positions.States[i] = all[id]
+			}
 
 			positions.Preset, _ = m.presetForValue(positions.States)
 
